@@ -41,6 +41,7 @@ type Env struct {
 	nextOld    string
 	file       *SpecFile
 	calleeMode bool
+	capt       map[string]capturedVar // captured variables of a closure contract (caller side)
 }
 
 func (g *FnGen) newEnv(cur, old *State) *Env {
@@ -102,6 +103,9 @@ func (e *Env) eval(x Expr) TVal { return e.force(e.evalLazy(x)) }
 func (e *Env) force(v TVal) TVal {
 	if v.addr == "" {
 		return v
+	}
+	if v.src == nil {
+		v.src = e
 	}
 	if v.src.specMode {
 		return TVal{term: v.src.specLoad(v.addr, v.ty.gt), ty: v.ty}
@@ -178,6 +182,14 @@ func (e *Env) evalLazy(x Expr) TVal {
 		v := e.eval(n.Val)
 		b := e.with(n.Name, TVal{term: "l_" + n.Name, ty: v.ty}).eval(n.Body)
 		return TVal{term: "(let ((l_" + n.Name + " " + v.term + ")) " + b.term + ")", ty: b.ty}
+	case *EUpdate:
+		v := e.eval(n.X)
+		k := e.eval(n.K)
+		nv := e.eval(n.V)
+		if v.ty.elem == nil {
+			panic(genErr("update of non-map spec value %s", exprString(n.X)))
+		}
+		return TVal{term: store(v.term, k.term, nv.term), ty: v.ty}
 	case *ESlice:
 		v := e.eval(n.X)
 		if v.ty.sort == "Str" {
@@ -220,6 +232,17 @@ func (e *Env) specLoad(r string, t types.Type) string {
 func (e *Env) ident(name string) TVal {
 	if v, ok := e.vars[name]; ok {
 		return v
+	}
+	if cv, ok := e.capt[name]; ok {
+		return e.loadAt(cv.addr, cv.typ)
+	}
+	if name == "visited" && e.g != nil && e.cur.lastRange != nil {
+		rg := e.cur.lastRange
+		mt := rg.X.Type().Underlying().(*types.Map)
+		kt := e.goTy(mt.Key())
+		bt := boolTy()
+		_, ds := e.g.mapSorts(mt)
+		return TVal{term: e.cur.iters[rg], ty: Ty{sort: ds, key: &kt, elem: &bt}}
 	}
 	if strings.HasPrefix(name, "result") && e.res != nil {
 		if name == "result" {
@@ -582,6 +605,33 @@ func (e *Env) call(n *ECall) TVal {
 		}
 		nv := e.eval(n.Args[2])
 		return TVal{term: e.updField(v, path, nv), ty: v.ty}
+	case "has": // has(m, k): k is in the domain of Go map m
+		v := e.eval(n.Args[0])
+		i := e.eval(n.Args[1])
+		mt, ok := v.ty.gt.Underlying().(*types.Map)
+		if v.ty.gt == nil || !ok {
+			panic(genErr("has() on non-map"))
+		}
+		return e.mapHas(v, i, mt)
+	case "decode": // decode(pkg.Type, bytes)
+		t := e.c.goTypeOfExpr(n.Args[0], e.pkg)
+		b := e.eval(n.Args[1])
+		_, dec := e.c.codecFuns(t)
+		return TVal{term: app(dec, b.term), ty: e.goTy(t)}
+	case "encode":
+		v := e.eval(n.Args[0])
+		if v.ty.gt == nil {
+			panic(genErr("encode of non-Go value"))
+		}
+		enc, _ := e.c.codecFuns(v.ty.gt)
+		return TVal{term: app(enc, v.term), ty: Ty{sort: "Str"}}
+	case "unbox": // unbox(iface, pkg.Type): the value of dynamic type T held by the interface
+		v := e.eval(n.Args[0])
+		t := e.c.goTypeOfExpr(n.Args[1], e.pkg)
+		if e.c.reg.sortOf(t) == "Ref" {
+			return TVal{term: app("i-val", v.term), ty: e.goTy(t)}
+		}
+		return e.loadAt(app("i-val", v.term), t)
 	case "fresh":
 		v := e.eval(n.Args[0])
 		r := v.term
